@@ -16,7 +16,7 @@ import lena.output
 import lena.variables
 
 from ..kernel import RunResult, Boom, PullBudgetExceeded
-from ..seams.flow import Tok, SimSource, key_of, bump, tok_of, Pred
+from ..seams.flow import COPIES, Tok, SimSource, key_of, bump, tok_of, Pred
 
 PROPERTY = "C02"
 LEVEL = "exploration"
@@ -398,12 +398,25 @@ class LazyIterable(object):
         return self._src
 
 
+class PlainIterator(object):
+    """a non-callable one-shot iterator over the simulated source"""
+
+    def __init__(self, src):
+        self._src = src
+
+    def __iter__(self):
+        return self
+
+    def __next__(self):
+        return next(self._src)
+
+
 def gen_scenario(tape):
     sc = Scenario()
     sc.infinite = tape.chance(1, 4, "infinite")
     # source: the flow comes from a callable first element; source-iterable: from an iterable
     # (non-callable) first element
-    sc.form = tape.choice(["sequence", "source", "source-iterable"], "form")
+    sc.form = tape.choice(["sequence", "source", "source-iterable", "source-iterator"], "form")
     sc.with_context = bool(tape.draw(2, "with-context"))
     n = 1 + tape.draw(6, "nelems")
     counter = [0]
@@ -417,6 +430,13 @@ def gen_scenario(tape):
     if None not in holds:
         sc.live_bound = sum(holds) + sum(1 for _ in walk(sc.nodes)) + 2
     sc.armed = sc.live_bound is not None and tape.chance(1, 3, "arm-liveness")
+    # deep copies: a Split works on one copy of its block at a time
+    splits = [x for x in walk(sc.nodes) if x.kind == "split" and x.branches]
+    sc.copy_bound = None
+    if not splits:
+        sc.copy_bound = 2
+    elif len(splits) == 1 and splits[0].p["bufsize"] is not None:
+        sc.copy_bound = splits[0].p["bufsize"] + 2
     if sc.infinite:
         sc.n = None
     elif sc.armed:
@@ -470,6 +490,8 @@ def execute(sc, res, fault_at, log):
     o.taken = 0
     o.exhausted = False
     o.max_alive = 0
+    o.max_copies = 0
+    COPIES.clear()
     o.alive_viol = None
     o.stopped_at = None
     gen = None
@@ -482,6 +504,9 @@ def execute(sc, res, fault_at, log):
             a = src.alive()
             if a > o.max_alive:
                 o.max_alive = a
+            c = len(COPIES)
+            if c > o.max_copies:
+                o.max_copies = c
             return orig_make(i)
         src.make = make_and_measure
     try:
@@ -491,6 +516,9 @@ def execute(sc, res, fault_at, log):
             gen = lena.core.Sequence(*els).run(src)
         elif sc.form == "source-iterable":
             gen = lena.core.Source(LazyIterable(src), *els)()
+        elif sc.form == "source-iterator":
+            # a one-shot iterator object (not callable) as the first element
+            gen = lena.core.Source(PlainIterator(src), *els)()
         else:
             gen = lena.core.Source(src, *els)()
         log.ev("run")
@@ -510,6 +538,9 @@ def execute(sc, res, fault_at, log):
                 a = src.alive()
                 if a > o.max_alive:
                     o.max_alive = a
+                c = len(COPIES)
+                if c > o.max_copies:
+                    o.max_copies = c
         if not o.exhausted:
             o.stopped_at = len(log)
             if sc.how == "close":
@@ -672,6 +703,11 @@ def judge(sc, o, res):
             res.viol("C02:pipeline:unbounded-liveness:%s" % _liveness_culprit(sc),
                      "%d original input objects were alive at once; the documented holds allow %d "
                      "(flow length %s)" % (o.max_alive, sc.live_bound, sc.n))
+            return
+        if sc.copy_bound is not None and o.max_copies > sc.copy_bound:
+            res.viol("C02:Split:holds-more-than-one-copy-of-its-block",
+                     "%d deep copies of input values were alive at once; a Split works on one copy of "
+                     "its block of %d values at a time" % (o.max_copies, sc.copy_bound - 2))
             return
         res.probe("liveness-checked-within-bound")
 
